@@ -22,7 +22,7 @@ def parse_case(line):
     return toks[0], [[] if t == "-" else [int(x) for x in t.split(",")] for t in toks[1:]]
 
 
-PANIC = 888888
+PANIC = 18446744073710440504
 
 
 def is_panic(out):
